@@ -158,6 +158,28 @@ fn check(spec: &RuleSpec, extra_docs: &[MObj], examples: &(Y, Y), th: bool) -> S
             }
         }
     }
+    // Rule::load(path) is from_str over the file's contents
+    {
+        use std::sync::atomic::{AtomicU64, Ordering};
+        static N: AtomicU64 = AtomicU64::new(0);
+        let n = N.fetch_add(1, Ordering::Relaxed);
+        if n % 16 == 0 {
+            let path = std::env::temp_dir().join(format!("tv-c14-{}-{}.yml", std::process::id(), n));
+            if std::fs::write(&path, &text0).is_ok() {
+                let loaded = catch(|| Rule::load(&path));
+                let _ = std::fs::remove_file(&path);
+                st.transitions += 1;
+                let same = matches!(&loaded, Ok(Ok(r2)) if eng::canon(r2) == base_canon && observable(r2).ok() == base_obs.clone().ok());
+                if !same {
+                    st.push_violation(Violation {
+                        signature: "Rule::load-differs-from-from_str".into(),
+                        witness: format!("rule {}", one_line(&text0)),
+                        replay: json!({"kind":"roundtrip","rule_yaml":text0}),
+                    });
+                }
+            }
+        }
+    }
     let sws: Vec<u8> = if th { (0..16).collect() } else { vec![0, 0b1111, 0b0110, 0b1001] };
     let mut disc = (false, false);
     for sw in sws {
